@@ -76,7 +76,7 @@ Lemma skipn_app_exact {A} (a b : list A) : skipn (length a) (a ++ b) = b.
 Proof. induction a as [|x a IH]; cbn [length skipn app]; auto. Qed.
 
 Lemma seek_exact a r off : nlen a = off -> seek (a ++ r) off = r.
-Proof. intros <-. unfold seek. rewrite to_nat_nlen. apply skipn_app_exact. Qed.
+Proof. intros <-. unfold seek. rewrite skipn_N_eq, to_nat_nlen. apply skipn_app_exact. Qed.
 
 Lemma nlen_zeros n : nlen (zeros n) = n.
 Proof. unfold zeros, nlen. rewrite repeat_length. apply N2Nat.id. Qed.
@@ -129,7 +129,7 @@ Proof.
     rewrite N.mod_small by lia. rewrite get32_put32 by lia.
     replace (utf8_len s + 1 =? 0) with false by lia.
     replace (utf8_len s + 1 - 1) with (nlen (utf8_enc s)) by (rewrite utf8_len_enc; lia).
-    rewrite to_nat_nlen, take_bytes_app. cbn [app get8].
+    rewrite take_bytes_N_eq, to_nat_nlen, take_bytes_app. cbn [app get8].
     rewrite cp_decode_utf8, utf8_roundtrip by exact Hs. reflexivity.
   - apply some_inj in Hw; subst b. unfold read_value. rewrite <- !app_assoc, get32_put32 by lia.
     cbn [N.eqb Pos.eqb]. rewrite get64_put64 by lia. reflexivity.
